@@ -247,6 +247,7 @@ func constsGen(tier string, r *rng, emit func(string)) {
 			rec(nil)
 		}
 	}
+	constsGenExtra(tier, r, emit) // constants that are locals of a function call (consts2.go)
 	// random
 	n, maxLen := 1500, 3
 	if thorough {
